@@ -234,7 +234,7 @@ theorem flags_oct1 : ∀ (qr aa tc rd : Bool) (op : Fin 16),
     decide ((bitOf qr 7 + op.val * 8 + bitOf aa 2 + bitOf tc 1 + bitOf rd 0) &&& 0b100 ≠ 0) = aa ∧
     decide ((bitOf qr 7 + op.val * 8 + bitOf aa 2 + bitOf tc 1 + bitOf rd 0) &&& 0b10 ≠ 0) = tc ∧
     decide ((bitOf qr 7 + op.val * 8 + bitOf aa 2 + bitOf tc 1 + bitOf rd 0) &&& 1 ≠ 0) = rd := by
-  decide
+  decide +kernel
 
 theorem flags_oct2 : ∀ (ra ad cd : Bool) (rc : Fin 16),
     (bitOf ra 7 + bitOf ad 5 + bitOf cd 4 + rc.val) &&& 0b01000000 = 0 ∧
@@ -242,7 +242,7 @@ theorem flags_oct2 : ∀ (ra ad cd : Bool) (rc : Fin 16),
     decide ((bitOf ra 7 + bitOf ad 5 + bitOf cd 4 + rc.val) &&& 0b10000000 ≠ 0) = ra ∧
     decide ((bitOf ra 7 + bitOf ad 5 + bitOf cd 4 + rc.val) &&& 0b00100000 ≠ 0) = ad ∧
     decide ((bitOf ra 7 + bitOf ad 5 + bitOf cd 4 + rc.val) &&& 0b00010000 ≠ 0) = cd := by
-  decide
+  decide +kernel
 
 theorem bitOf_le (b : Bool) (p : Nat) : bitOf b p ≤ 2 ^ p := by
   cases b <;> simp [bitOf]
@@ -301,5 +301,52 @@ theorem decFlags_complete {buf : Bytes} {off lim c : Nat} {f : Flags} (hf : Flag
   unfold decFlags
   simp only [n1, p1, hop, Bool.not_true, Bool.false_eq_true, if_false, n2, q1, ne_eq, not_true_eq_false, q2, hrc]
   simp only [← ne_eq, p2, p3, p4, p5, q3, q4, q5]
+
+/-! ## Non-vacuity: an APL record, a question, a flag word -/
+
+section Examples
+
+local macro "bdec" : tactic => `(tactic| (unfold BytesAt; decide +kernel))
+
+/-- `a. APL IN 60 !1:10.0.0.0/8`, then the question `<ptr to 0> MX IN`, then the flag word 0x8583 -/
+private def exBuf : Bytes :=
+  [1, 97, 0, 0, 42, 0, 1, 0, 0, 0, 60, 0, 5, 0, 1, 8, 0x81, 10, 0xC0, 0, 0, 15, 0, 1, 0x85, 0x83]
+
+private theorem exApl : RRAt exBuf true 0
+    { name := [[97]], ty := 42, cls := 1, ttl := 60,
+      rd := .apl [{ fam := 1, pfx := 8, neg := true, addr := [10, 0, 0, 0] }] } 18 :=
+  .normal (e := 3) (rdlen := 5) (by decide)
+    ⟨0, .label (len := 1) (by decide) (by decide) (by decide) (by decide) (by decide) (.root (by decide)),
+      by decide, by decide, by decide⟩
+    (by decide) (by decide) (by decide) (by decide) ⟨by decide, rfl⟩ (by bdec)
+    (.apl rfl (.cons (.mk (k := 1) (by decide) (by decide) (by bdec)
+      ⟨.inl rfl, rfl, by decide, by bdec, by decide +kernel, by decide, ((checkPrefix_ok_iff _ _).mp rfl).2⟩) (by decide) .nil))
+
+example : ∃ c', decRR { buf := exBuf, off := 0, lim := 26, cost := 0 } =
+    .ok ({ name := [[97]], ty := 42, cls := 1, ttl := 60,
+           rd := .apl [{ fam := 1, pfx := 8, neg := true, addr := [10, 0, 0, 0] }] },
+      { buf := exBuf, off := 18, lim := 26, cost := c' }) :=
+  decRR_complete exApl (by decide) (by decide) (by decide +kernel)
+
+private theorem exQ : QuestionAt exBuf true 18 { name := [[97]], qtype := 15, qclass := 1 } 24 :=
+  ⟨20, ⟨1, .ptr (a := 0xC0) (b := 0) (by decide) (by decide) (by decide) (by decide)
+      (.label (len := 1) (by decide) (by decide) (by decide) (by decide) (by decide) (.root (by decide))),
+      by decide, by decide, by decide⟩,
+    by decide, by decide, by bdec, rfl, by decide⟩
+
+example : ∃ c', decQuestion { buf := exBuf, off := 18, lim := 26, cost := 0 } =
+    .ok ({ name := [[97]], qtype := 15, qclass := 1 }, { buf := exBuf, off := 24, lim := 26, cost := c' }) :=
+  decQuestion_complete exQ (by decide) (by decide) (by decide +kernel)
+
+private def exFlags : Flags :=
+  { qr := true, opcode := 0, aa := true, tc := false, rd := true, ra := true, ad := false, cd := false, rcode := 3 }
+
+example : flagsWord exFlags = 0x8583 := by decide
+
+example : decFlags { buf := exBuf, off := 24, lim := 26, cost := 0 } =
+    .ok (exFlags, { buf := exBuf, off := 24 + 2, lim := 26, cost := 0 + 2 }) :=
+  decFlags_complete ⟨by decide, by decide, by decide⟩ (by bdec) (by decide) (by decide) (by decide +kernel)
+
+end Examples
 
 end Complete
